@@ -115,6 +115,9 @@ type Op struct {
 	N int `json:"n,omitempty"`
 	// Doc holds field -> JSON text (create: the document; update: the patch).
 	Doc map[string]string `json:"doc,omitempty"`
+	// Via (create update delete, on live documents): 0 Collection.Create/Update/Delete;
+	// 1 CreateMany / Save / DeleteWithFilter on _docID; 2 Save / UpdateWithFilter on _docID / as 1.
+	Via int `json:"via,omitempty"`
 }
 
 // F is a filter expression.
